@@ -155,11 +155,15 @@ Proof. intros Ha Hb. unfold by_name_smart, by_name. rewrite Ha, Hb, peq_refl. re
 Lemma smart_text a b : knum a = None -> knum b = None -> by_name_smart a b = by_name a b.
 Proof. intros Ha Hb. unfold by_name_smart, by_name. rewrite Ha, Hb. reflexivity. Qed.
 
-(* magnitude of finite values: m1 * 2^e1 < m2 * 2^e2 (exponents as produced from float64 bits) *)
-Lemma plt_fin m1 e1 m2 e2 : (-1074 <= e1)%Z -> (-1074 <= e2)%Z ->
-  plt (0, m1 * 2 ^ (e1 + 1074))%Z (0, m2 * 2 ^ (e2 + 1074))%Z = true <->
-  (m1 * 2 ^ (e1 + 1074) < m2 * 2 ^ (e2 + 1074))%Z.
-Proof. intros _ _. unfold plt. cbn [fst snd]. rewrite Z.ltb_irrefl, Z.eqb_refl. cbn. apply Z.ltb_lt. Qed.
+(* magnitude of finite values (multiples of the case's common scale): m1 * 2^e1 < m2 * 2^e2 *)
+Lemma fnum_fin m e : (0 <= e)%Z -> fnum (FFin m e) = Some (0, m * 2 ^ e)%Z.
+Proof. intros H. cbn. rewrite Z.shiftl_mul_pow2 by lia. reflexivity. Qed.
+Lemma plt_fin m1 e1 m2 e2 : (0 <= e1)%Z -> (0 <= e2)%Z ->
+  flt (FFin m1 e1) (FFin m2 e2) = true <-> (m1 * 2 ^ e1 < m2 * 2 ^ e2)%Z.
+Proof.
+  intros H1 H2. unfold flt. rewrite !fnum_fin by assumption.
+  unfold plt. cbn [fst snd]. rewrite Z.ltb_irrefl, Z.eqb_refl. cbn. apply Z.ltb_lt.
+Qed.
 
 (* the pinned comparator is not transitive: 9 < 10 < 5x < 9 *)
 Definition k9 := mkkey (of_str "9") (Some (FFin 9 0)) FmtErr [].
